@@ -72,6 +72,10 @@ func runNet(s *vsimcore.Sim, p vsimcore.Params) vsimcore.RunInfo {
 		}
 	}
 	cfg.rotate = p.Bool("rotate", false) && s.Pct("rotate", 60)
+	if cfg.rotate && p.Bool("surge", false) && s.Pct("surge", 50) {
+		cfg.surge = true
+		cfg.rotatePowersOnly = s.Pct("surge-same-keys", 70)
+	}
 	cfg.dropDupMapper = s.Pct("dropdup-mapper", 50)
 	// fault kinds enabled in this run (swarm)
 	switch p.Str("faults", "reorder") {
@@ -106,7 +110,26 @@ func runNet(s *vsimcore.Sim, p vsimcore.Params) vsimcore.RunInfo {
 	if cfg.oracles["C11"] {
 		cfg.rLull = []int{0, 6, 12, 25}[s.Choose("lull-rate", 4)]
 	}
+	if p.Bool("recover", false) {
+		cfg.netRecover = s.Pct("recover", 75)
+		cfg.byzProposals = cfg.nByz > 0 && s.Pct("byz-proposals", 60)
+	}
+	if p.Str("pace", "") == "calm" {
+		// fault rates at which most runs make real progress between faults: a round of six nodes with
+		// parked store writes is about a thousand scheduler steps, so "per thousand steps" is "per round"
+		if cfg.rEarlyTimer > 0 {
+			cfg.rEarlyTimer = 1 + s.Choose("r-calm", 2)
+		}
+		if cfg.rEquivocate > 0 {
+			cfg.rEquivocate = 10 + s.Choose("r-calm", 60)
+		}
+		if cfg.rDup > 0 {
+			cfg.rDup = 2 + s.Choose("r-calm", 8)
+		}
+		cfg.progressWindow = cfg.maxSteps / 2
+	}
 	w := newVzWorld(s, cfg)
+	w.replayEnabled = cfg.netRecover
 	stalled := false
 	fill := func() {
 		maxFin := uint64(0)
